@@ -440,3 +440,66 @@ Proof.
   - exact toy_dec_enc_G.
   - intros a _. cbn [ec_enc ec_toy length]. rewrite be32_length. reflexivity.
 Qed.
+
+(* ------------------------------------------------------------------ *)
+(* parse-then-decrypt of the executed instance is the independent BIE1 decryption *)
+Opaque firstn skipn.
+Lemma payload_pk (s : bytes) :
+  (69 <= length s)%nat ->
+  firstn (length s - 32) s = firstn 4 s ++ firstn 33 (skipn 4 s) ++ firstn (length s - 32 - 37) (skipn 37 s).
+Proof.
+  intros Hl. apply (app_inv_tail (skipn (length s - 32) s)).
+  rewrite firstn_skipn, <- !app_assoc. symmetry. apply join_pk. exact Hl.
+Qed.
+Lemma payload_nopk (s : bytes) :
+  (36 <= length s)%nat ->
+  firstn (length s - 32) s = firstn 4 s ++ firstn (length s - 32 - 4) (skipn 4 s).
+Proof.
+  intros Hl. apply (app_inv_tail (skipn (length s - 32) s)).
+  rewrite firstn_skipn, <- !app_assoc. symmetry. apply join_nopk. exact Hl.
+Qed.
+
+Theorem decrypt_eq_bie1 E b pk A hp s :
+  ec_dec E pk = Some A ->
+  (do c <- from_bytes (ecies_std E) s hp; decrypt (ecies_std E) c b pk) = of_option (bie1_decrypt E b A hp s).
+Proof.
+  intros Hd. unfold bie1_decrypt, decrypt.
+  rewrite (derive_spec (ecies_std E) (ecies_std_laws E) b pk A Hd). cbn [eo_ec ecies_std].
+  destruct (ec_is_inf E (ec_smul E b A)) eqn:Ei.
+  { cbn [of_option]. pose proof (from_bytes_total (ecies_std E) s hp) as Hn.
+    destruct (from_bytes (ecies_std E) s hp); cbn [bind]; [reflexivity|reflexivity|contradiction]. }
+  unfold keys_of, key_schedule, compressed. cbn [eo_sha512 eo_ec ecies_std bind]. rewrite sha_512_def.
+  set (h := sha512 (ec_enc E true (ec_smul E b A))).
+  assert (Lh : length h = 64%nat) by apply sha512_length.
+  assert (Ekm : firstn 32 (skipn 32 h) = skipn 32 h) by (apply firstn_all2; rewrite skipn_length; lia).
+  rewrite Ekm.
+  assert (Hsz : sizes_ok AES128_CBC (firstn 16 (skipn 16 h)) (firstn 16 h) = true)
+    by (unfold sizes_ok; rewrite !firstn_length, !skipn_length, Lh; reflexivity).
+  unfold from_bytes.
+  replace (if hp then 69%nat else 36%nat) with ((if hp then 37 else 4) + 32)%nat by (destruct hp; reflexivity).
+  destruct (Nat.ltb_spec (length s) ((if hp then 37 else 4) + 32)) as [Hlt|Hl]; [reflexivity|].
+  assert (E4 : firstn 4 (firstn (length s - 32) s) = firstn 4 s).
+  { rewrite firstn_firstn. f_equal. destruct hp; lia. }
+  rewrite E4, <- magic_bie1.
+  destruct (bytes_eqb (firstn 4 s) magic) eqn:Em; cbn [negb]; [|reflexivity].
+  apply bytes_eqb_eq in Em.
+  destruct hp.
+  - assert (Epk : firstn 33 (skipn 4 (firstn (length s - 32) s)) = firstn 33 (skipn 4 s)).
+    { rewrite skipn_firstn_comm, firstn_firstn. f_equal. lia. }
+    rewrite Epk. unfold pubkey_of_bytes. cbn [eo_ec ecies_std andb].
+    destruct (ec_dec E (firstn 33 (skipn 4 s))); cbn [bind of_option]; [|reflexivity].
+    unfold decrypt_with, mac_preimage. cbn [ct_pub ct_body ct_mac opt_bytes eo_hmac256 eo_cbc_dec ck_iv ck_ke ck_km ecies_std].
+    rewrite sha_256_hmac_spec, hmac_spec_sha256.
+    rewrite (payload_pk s Hl), <- Em.
+    destruct (bytes_eqb (skipn (length s - 32) s) _); cbn [negb]; [|reflexivity].
+    rewrite decrypt_cbc_standard by (reflexivity || exact Hsz). f_equal. f_equal.
+    rewrite <- (payload_pk s Hl), skipn_firstn_comm. reflexivity.
+  - cbn [andb]. unfold decrypt_with, mac_preimage.
+    cbn [bind ct_pub ct_body ct_mac opt_bytes app eo_hmac256 eo_cbc_dec ck_iv ck_ke ck_km ecies_std].
+    rewrite sha_256_hmac_spec, hmac_spec_sha256.
+    rewrite (payload_nopk s Hl), <- Em.
+    destruct (bytes_eqb (skipn (length s - 32) s) _); cbn [negb]; [|reflexivity].
+    rewrite decrypt_cbc_standard by (reflexivity || exact Hsz). f_equal. f_equal.
+    rewrite <- (payload_nopk s Hl), skipn_firstn_comm. reflexivity.
+Qed.
+Transparent firstn skipn.
